@@ -2,24 +2,27 @@
 """register the behaviour-preserving refactors an agent delivered (/tmp/ref-Cxx-out/refactor_k.diff) as equivalence mutants"""
 import json, os, shutil, sys
 pid = sys.argv[1]
-out = "/tmp/ref-%s-out" % pid
+rnd = sys.argv[2] if len(sys.argv) > 2 else "1"          # round 1: /tmp/ref-Cxx-out -> Axx-k ; round 2: /tmp/rf2-Cxx-out -> Bxx-k
+out = ("/tmp/ref-%s-out" if rnd == "1" else "/tmp/rf2-%s-out") % pid
+sub = "agent" if rnd == "1" else "agent2"
+pre = "A" if rnd == "1" else "B"
 p = "/verif/mutants/specs.json"
 d = json.load(open(p))
 names = {m["name"] for m in d}
 notes = open(os.path.join(out, "notes.md")).read() if os.path.exists(os.path.join(out, "notes.md")) else ""
-os.makedirs("/verif/mutants/patches/agent", exist_ok=True)
+os.makedirs("/verif/mutants/patches/%s" % sub, exist_ok=True)
 if notes:
-    open("/verif/mutants/patches/agent/%s-notes.md" % pid, "w").write(notes)
+    open("/verif/mutants/patches/%s/%s-notes.md" % (sub, pid), "w").write(notes)
 added = []
 for k in range(1, 9):
     f = os.path.join(out, "refactor_%d.diff" % k)
     if not os.path.exists(f) or os.path.getsize(f) == 0:
         continue
-    name = "A%s-%d-agent-refactor" % (pid[1:], k)
-    dst = "mutants/patches/agent/%s-refactor_%d.diff" % (pid, k)
+    name = "%s%s-%d-agent-refactor" % (pre, pid[1:], k)
+    dst = "mutants/patches/%s/%s-refactor_%d.diff" % (sub, pid, k)
     shutil.copy(f, os.path.join("/verif", dst))
     if name not in names:
-        d.append({"name": name, "prop": "ALL", "equivalent": True, "patch": dst, "suite_verdict": "agent: 349 pass", "origin": "agent refactor (given only the property text)"})
+        d.append({"name": name, "prop": "ALL", "equivalent": True, "patch": dst, "suite_verdict": "agent: 349 pass", "origin": "agent refactor round %s (given only the property text)" % rnd})
         added.append(name)
 json.dump(d, open(p, "w"), indent=1)
 print("added", added)
